@@ -1,4 +1,5 @@
 import DaskModel.Lemmas.SDL
+import DaskModel.Lemmas.SDLExact
 /-! # C45 — division planning never splits equal index values (theorems)
 
 Model: `Dask.SDL.sdl` (`Model/SDL.lean`), a transliteration of
@@ -89,6 +90,26 @@ theorem sdl_boundary_first_occurrence {seq : List Nat} {m : Mode} {divs locs : L
   rcases hl with hl | hl
   · exact absurd hl hlen
   · exact hinv.first l hl hl0
+
+/-- FULL STATEMENT of the fourth clause: with at least `n` distinct values `npartitions = n` is met exactly
+    (and the function returns). Proved below for the duplicate-free case; with duplicates (`enforce_exact`
+    branch: the step-back arithmetic on `offsets`) it is validated exhaustively by the tie only. -/
+def ExactWhenEnoughUniqueFullStatement : Prop :=
+  ∀ (seq : List Nat) (n : Nat), Sorted seq → 1 ≤ n → n ≤ (dedupSorted seq).length →
+    ∃ divs locs, sdl seq (.npartitions n) = some (divs, locs) ∧ locs.length = n + 1
+
+/-- **`npartitions` met exactly — `_partial`: duplicate-free sequences.** For a strictly increasing sequence
+    and `1 ≤ n ≤ len` the function returns (no IndexError; the model's fuel suffices) exactly `n` partitions,
+    at the ideal locations `j * (len / n) + min j (len % n)`. -/
+theorem sdl_exact_when_enough_unique_partial (seq : List Nat) (n : Nat) (hstrict : seq.Pairwise (· < ·))
+    (hn1 : 1 ≤ n) (hn : n ≤ seq.length) :
+    ∃ divs locs, sdl seq (.npartitions n) = some (divs, locs) ∧ locs.length = n + 1 ∧
+      locs = (List.range (n + 1)).map (prefixLoc (seq.length / n) (seq.length % n)) := by
+  obtain ⟨divs, h⟩ := sdl_exact_nodup seq n hstrict hn1 hn
+  exact ⟨divs, _, h, by simp, rfl⟩
+
+example : sdl [1, 3, 4, 7, 9, 12, 20] (.npartitions 3) = some ([1, 7, 12, 20], [0, 3, 5, 7]) := by decide
+example : (List.range 4).map (prefixLoc (7 / 3) (7 % 3)) = [0, 3, 5, 7] := by decide
 
 /-! ### non-vacuity: concrete sorted inputs with duplicates on which `sdl` answers -/
 
